@@ -283,6 +283,31 @@ fn negative<H: Hasher>(out: &mut CaseOut, hname: &str, t: &TreeCtx<H>, pos: &[us
         let p = pos[1..].to_vec();
         expect_reject(out, hname, "a position dropped", &root, &p, proof, pinfo(&p));
     }
+    // 10. an out-of-range position smuggled in with a made-up leaf and a made-up path of every plausible length
+    {
+        let depth = proof.depth as usize;
+        let mut lens = vec![0usize, 1, depth.saturating_sub(1), depth, depth + 1];
+        lens.sort();
+        lens.dedup();
+        for q in [n, n + 1, 2 * n - 1, 2 * n] {
+            for front in [false, true] {
+                for &k in lens.iter() {
+                    let mut m = clone_proof(proof);
+                    let mut p = pos.to_vec();
+                    if front {
+                        p.insert(0, q);
+                        m.leaves.insert(0, junk::<H>(q));
+                    } else {
+                        p.push(q);
+                        m.leaves.push(junk::<H>(q));
+                    }
+                    m.nodes.push((0..k).map(|j| junk::<H>(q * 7 + j)).collect());
+                    let (a, b, sh) = (pos.to_vec(), p.clone(), shape(&m));
+                    expect_reject(out, hname, "an out-of-range position added together with a made-up leaf and path", &root, &p, &m, move || json!({"honest_positions": a, "claimed_positions": b, "leaves_in_tree": n, "mutant": sh}));
+                }
+            }
+        }
+    }
     expect_reject(out, hname, "empty position list", &root, &[], proof, pinfo(&[]));
     let many: Vec<usize> = (0..256).collect();
     expect_reject(out, hname, "256 positions", &root, &many, proof, pinfo(&[256]));
